@@ -15,7 +15,8 @@ DECIDES = ('stretch_strobe_signal is lifted (through a synthetic caller that exi
            'values (an exhaustive fixpoint; no stimulus is chosen): in every reachable state and for both inputs the output '
            'equals "a strobe within the last n cycles" -- cycles 0..n-1 after the strobe, or 1..n when delay is allowed. Also: '
            'the memory register is clocked by the domain handed in (sync by default) and the returned signal is the output; '
-           'the clock generator\'s wrapper forwards strobe, output and allow_delay unchanged. ')
+           'the clock generator\'s wrapper forwards strobe, output and allow_delay unchanged. '
+           'The memory of past strobes is reset with its domain, to 0 (the exploration starts from reset). ')
 NOT_DECIDED = ('stretch lengths above the explored bound (the construction is uniform in n, but that is not proven); clock-domain '
                'crossing behaviour of the stretched pulse (metastability, frequency ratio actually configured).')
 
